@@ -59,6 +59,11 @@ class C36Engine(Engine):
             raise HarnessError(f"tsdate imported from {tsdate.__file__}, expected under {repo}")
         self.np = np
         self.prior = tsdate.prior
+        self.tsdate = tsdate
+        import msprime
+
+        self.small_ts = msprime.sim_ancestry(4, ploidy=1, population_size=1.0, sequence_length=100,
+                                             recombination_rate=0.01, random_seed=5)
         if tsdate.cache.appdirs is not appdirs or not hasattr(tsdate.cache, "get_cache_dir"):
             raise HarnessError("seam mismatch: tsdate.cache no longer uses appdirs.user_cache_dir")
         if _REAL_USER_CACHE_DIR is None:
@@ -159,6 +164,27 @@ class C36Engine(Engine):
             self._ref[key] = r
         return r
 
+    def reference_grid(self, n, distr):
+        key = ("grid", n, distr)
+        g = self._ref.get(key)
+        if g is None:
+            w = simfs.World(Tape(values=[]), EventLog(keep=0))
+            out = {}
+
+            def fresh():
+                pr = self.tsdate.build_prior_grid(self.small_ts, population_size=1.0, timepoints=6,
+                                                  approximate_priors=True, approx_prior_size=n,
+                                                  prior_distribution=distr)
+                out["g"] = self.np.array(pr.grid_data, copy=True)
+
+            w.spawn("refgrid", fresh)
+            w.run()
+            if w.procs[0].state != "done":
+                raise HarnessError(f"reference grid computation failed: {w.procs[0].error!r}")
+            g = out["g"]
+            self._ref[key] = g
+        return g
+
     # ------------------------------------------------------------------
     def spec_from_tape(self, tape):
         n = tape.pick("n_approx", N_CHOICES)
@@ -172,7 +198,7 @@ class C36Engine(Engine):
         actors = []
         n_crash_budget = tape.pick("n_crashes", [0, 1, 1, 2, 3])
         for i in range(n_actors):
-            a = {"die_at": None, "torn_frac": 0.0}
+            a = {"die_at": None, "torn_frac": 0.0, "kind": "grid" if tape.chance("actor_kind_grid", 0.15) else "cct"}
             if n_crash_budget > 0 and tape.chance("doomed", 0.6):
                 n_crash_budget -= 1
                 a["die_at"] = 1 + tape.choose("die_at", est + 4)
@@ -201,8 +227,16 @@ class C36Engine(Engine):
             cct.add(tt, approximate=True)
             return np.array(cct.approx_priors, copy=True), np.array(cct[tt], copy=True)
 
+        def actor_grid():
+            # the same cache reached through the public API: build_prior_grid(approximate_priors=True)
+            pr = self.tsdate.build_prior_grid(self.small_ts, population_size=1.0, timepoints=6,
+                                              approximate_priors=True, approx_prior_size=n, prior_distribution=distr)
+            return None, np.array(pr.grid_data, copy=True)
+
         for i, a in enumerate(spec["actors"]):
-            w.spawn(f"run{i}", actor, die_at=a["die_at"], torn_frac=a["torn_frac"], torn_k=a.get("torn_k"))
+            fn = actor_grid if a.get("kind") == "grid" else actor
+            w.spawn(f"run{i}", fn, die_at=a["die_at"], torn_frac=a["torn_frac"], torn_k=a.get("torn_k"))
+            w.procs[-1].kind = a.get("kind", "cct")
         w.run(max_steps=60000)
         if w.step_cap_hit or w.deadlock:
             res["violations"].append(violation(
@@ -226,6 +260,7 @@ class C36Engine(Engine):
         res["states"].append((n, hashlib.sha256(repr(sorted(snap.items())).encode()).hexdigest()[:16]))
 
         later = w.spawn("later", actor)
+        later.kind = "cct"
         w.run(max_steps=60000)
         if w.step_cap_hit or w.deadlock:
             res["violations"].append(violation(
@@ -268,6 +303,18 @@ class C36Engine(Engine):
         if p.state != "done":
             return
         table, priors = p.result
+        if getattr(p, "kind", "cct") == "grid":
+            g = self.reference_grid(spec["n"], spec["distr"])
+            ok = priors.shape == g.shape and np.array_equal(priors, g, equal_nan=True)
+            w.log.add(p.pid, "JUDGE-GRID", ok)
+            if not ok:
+                res["violations"].append(violation(
+                    "silent-wrong-table", site + ":build_prior_grid",
+                    f"{p.name} (pid {p.pid}): build_prior_grid(approximate_priors=True, approx_prior_size={spec['n']}) "
+                    f"completed normally but its prior grid differs from the one built on a freshly computed table "
+                    f"(max |d|={float(np.nanmax(np.abs(priors - g))) if priors.shape == g.shape else 'shape'}); "
+                    f"spec={spec}"))
+            return
         ok_t = table.shape == ref["table"].shape and np.array_equal(table, ref["table"], equal_nan=True)
         ok_p = priors.shape == ref["priors"].shape and np.array_equal(priors, ref["priors"], equal_nan=True)
         w.log.add(p.pid, "JUDGE", ok_t, ok_p)
